@@ -27,7 +27,7 @@ func init() {
 		Level: "exploration",
 		Rule: "idx%6: 0 = a block of PLMNs (all 1.1M in thorough) through PlmnIDToNas; 1 = S-NSSAI: all SST 0..255 x SD {absent, 000000, FFFFFF, random, upper/lower case}; 2 = a block of AMF ids (all 2^24 in thorough, 2^16 in quick); " +
 			"3 = IPv4 / IPv6 / dual-stack addresses through IPAddressToNgap and back; 4 = protocol configuration option lists of 0..40 units with 0..255 octets each through Marshal/UnMarshal; 5 = DNN round trips. " +
-			"distinct = hash(kind, block); all non-trivial",
+			"IPv6 in every RFC 4291 spelling (form 3 up to 45 characters), IPv4-mapped forms, PCO lists built with the Add... helpers and then edited by their owner, exact PCO totals and up to 21844 tiny units. distinct = hash(kind, block); all non-trivial",
 		Assumptions: []string{"only the five families named in the property have inverses in this copy; PLMN, S-NSSAI and AMF id are checked one way"},
 		N: func(t string) int {
 			if t == "thorough" {
